@@ -28,6 +28,7 @@ import (
 	"github.com/google/martian/v3"
 	"github.com/google/martian/v3/har"
 	mlog "github.com/google/martian/v3/log"
+	"github.com/google/martian/v3/proxyutil"
 	"pgregory.net/rapid"
 
 	"verifharness/internal/kit"
@@ -72,6 +73,97 @@ type Case struct {
 	// logger before the exchange; Post and Body are then what it amounts to.
 	Hist    []OptCall `json:"hist,omitempty"`
 	OneCall bool      `json:"one_call,omitempty"` // the whole history is passed to a single SetOption call
+	// Stale: a modifier in front of the logger changed the message through the
+	// struct fields only, so that the header MAP holds a literal that disagrees
+	// with the field net/http writes the message from:
+	// req-content-length | res-content-length (body replaced, ContentLength
+	// updated, literal Content-Length left behind) | req-host (literal Host in
+	// the map) | req-transfer-encoding | res-transfer-encoding (literal
+	// "identity" in the map of a chunked message). Applied where applicable.
+	Stale []string `json:"stale,omitempty"`
+	// Built: the response is not read off the wire but built by the proxy with
+	// proxyutil.NewResponse(code, body, req) (502, skipped round trip, ...).
+	Built bool `json:"built,omitempty"`
+}
+
+const appended = "<!-- appended by a modifier -->"
+
+func setHeader(hs []msggen.Header, name, value string) []msggen.Header {
+	out := append([]msggen.Header(nil), hs...)
+	for i := range out {
+		if textproto.CanonicalMIMEHeaderKey(out[i].Name) == name {
+			out[i].Value = value
+		}
+	}
+	return out
+}
+
+// staleRequest applies the request-side Stale effects and returns the
+// description of the request as the origin receives it now.
+func staleRequest(c Case, mq *msggen.Message, req *http.Request) *msggen.Message {
+	m := *mq
+	for _, st := range c.Stale {
+		switch {
+		case st == "req-content-length" && m.Framing == "cl" && len(m.Entity) > 0 && m.FormKind == "":
+			nb := append(append([]byte{}, m.Entity...), appended...)
+			req.Body, req.ContentLength = io.NopCloser(bytes.NewReader(nb)), int64(len(nb))
+			m.Entity, m.Plain = nb, nb
+			m.Headers = setHeader(m.Headers, "Content-Length", fmt.Sprint(len(nb)))
+		case st == "req-host":
+			req.Header.Set("Host", "stale.invalid")
+		case st == "req-transfer-encoding" && m.Framing == "chunked":
+			req.Header.Set("Transfer-Encoding", "identity")
+		}
+	}
+	return &m
+}
+
+func staleResponse(c Case, ms *msggen.Message, res *http.Response) *msggen.Message {
+	m := *ms
+	for _, st := range c.Stale {
+		switch {
+		case st == "res-content-length" && m.Framing == "cl" && m.BodyOnWire && len(m.Entity) > 0 && m.Encoding == "":
+			nb := append(append([]byte{}, m.Entity...), appended...)
+			res.Body, res.ContentLength = io.NopCloser(bytes.NewReader(nb)), int64(len(nb))
+			m.Entity, m.Plain = nb, nb
+			m.Headers = setHeader(m.Headers, "Content-Length", fmt.Sprint(len(nb)))
+		case st == "res-transfer-encoding" && m.Framing == "chunked":
+			res.Header.Set("Transfer-Encoding", "identity")
+		}
+	}
+	return &m
+}
+
+// builtResponse builds the response the way the proxy does when it answers
+// itself; the description is that of the same response in the protocol
+// version of the request.
+func builtResponse(c Case, req *http.Request) (*http.Response, *msggen.Message) {
+	spec := c.Res
+	spec.Response, spec.ReqMethod, spec.Proto10 = true, c.Req.Method, c.Req.Proto10
+	spec.Chunks, spec.Trailers, spec.ChunkExt = nil, nil, false
+	if spec.Framing != "none" {
+		spec.Framing = "cl"
+	}
+	ms := msggen.Build(spec)
+	var body io.Reader
+	if ms.BodyOnWire {
+		body = bytes.NewReader(ms.Entity)
+	}
+	res := proxyutil.NewResponse(ms.Status, body, req)
+	for _, h := range ms.Headers {
+		if textproto.CanonicalMIMEHeaderKey(h.Name) == "Content-Length" {
+			fmt.Sscan(h.Value, &res.ContentLength)
+			if res.ContentLength == 0 {
+				// proxyutil's header view reports the length field only when
+				// it is positive; an explicit zero lives in the map, as it does
+				// in a message read off the wire
+				res.Header.Add(h.Name, h.Value)
+			}
+			continue
+		}
+		res.Header.Add(h.Name, h.Value)
+	}
+	return res, ms
 }
 
 // ---------------------------------------------------------------- helpers
@@ -199,11 +291,18 @@ func run(c Case) (v kit.Verdict) {
 	} else {
 		l.SetOption(c.Post.Option(true), c.Body.Option(false))
 	}
+	mq = staleRequest(c, mq, req)
 	reqErr := l.ModifyRequest(req)
 
-	res, err := http.ReadResponse(bufio.NewReader(bytes.NewReader(ms.Wire)), req)
-	if err != nil {
-		return kit.Failf("C16/harness/generated-message-unparseable", "net/http cannot parse the generated response: %v", err)
+	var res *http.Response
+	if c.Built {
+		res, ms = builtResponse(c, req)
+	} else {
+		res, err = http.ReadResponse(bufio.NewReader(bytes.NewReader(ms.Wire)), req)
+		if err != nil {
+			return kit.Failf("C16/harness/generated-message-unparseable", "net/http cannot parse the generated response: %v", err)
+		}
+		ms = staleResponse(c, ms, res)
 	}
 	resErr := l.ModifyResponse(res)
 
@@ -284,7 +383,11 @@ func checkRequest(c Case, m *msggen.Message, r *har.Request) (v kit.Verdict) {
 	// net/http moves the Trailer announcement into Request.Trailer; the
 	// statement names Host, Content-Length and Transfer-Encoding only
 	if got, want := harHeaders(r.Headers, "Trailer"), pairs(m.Headers, true, "Trailer"); !same(got, want) {
-		fail("headers", "header list %v, the request carries %v", got, want)
+		if len(c.Stale) > 0 {
+			v.Addf("C16/request/headers-after-field-only-modifier/stale-literal-listed", "a modifier changed the request through its fields (%v); header list %v, the origin receives %v", c.Stale, got, want)
+		} else {
+			fail("headers", "header list %v, the request carries %v", got, want)
+		}
 	}
 	var gotQ []string
 	for _, q := range r.QueryString {
@@ -391,10 +494,18 @@ func checkResponse(c Case, m *msggen.Message, r *har.Response) (v kit.Verdict) {
 		fail("status", "status %d, sent %d", r.Status, m.Status)
 	}
 	if r.HTTPVersion != m.Proto {
-		fail("http-version", "httpVersion %q, sent %q", r.HTTPVersion, m.Proto)
+		if c.Built {
+			v.Addf("C16/response/built-by-proxyutil/http-version-differs", "httpVersion %q for a response built with proxyutil.NewResponse for an %s request: the client receives a %s status line", r.HTTPVersion, m.Proto, m.Proto)
+		} else {
+			fail("http-version", "httpVersion %q, sent %q", r.HTTPVersion, m.Proto)
+		}
 	}
 	if got, want := harHeaders(r.Headers, "Trailer"), pairs(m.Headers, true, "Trailer"); !same(got, want) {
-		fail("headers", "header list %v, the response carries %v", got, want)
+		if len(c.Stale) > 0 {
+			v.Addf("C16/response/headers-after-field-only-modifier/stale-literal-listed", "a modifier changed the response through its fields (%v); header list %v, the client receives %v", c.Stale, got, want)
+		} else {
+			fail("headers", "header list %v, the response carries %v", got, want)
+		}
 	}
 	want := ""
 	if m.Status >= 300 && m.Status < 400 {
@@ -592,8 +703,18 @@ func gen(t *rapid.T) Case {
 		c.OneCall = rapid.IntRange(0, 3).Draw(t, "one_call") == 0
 		c.Post, c.Body = effective(c.Hist)
 	}
+	if rapid.IntRange(0, 2).Draw(t, "stale") == 0 {
+		for _, st := range staleKinds {
+			if rapid.Bool().Draw(t, "stale_"+st) {
+				c.Stale = append(c.Stale, st)
+			}
+		}
+	}
+	c.Built = rapid.IntRange(0, 5).Draw(t, "built") == 0
 	return c
 }
+
+var staleKinds = []string{"req-content-length", "req-host", "req-transfer-encoding", "res-content-length", "res-transfer-encoding"}
 
 func nonUTF8(c Case) bool {
 	for _, q := range c.Req.Query {
@@ -674,6 +795,24 @@ func classes(c Case) []string {
 	if c.Handler {
 		cl = append(cl, "through-export-handler")
 	}
+	for _, st := range c.Stale {
+		switch {
+		case st == "req-content-length" && c.Req.Framing == "cl" && c.Req.Body.Kind != "none" && c.Req.Body.Kind != "form" && c.Req.Body.Kind != "multipart" && c.Req.Body.Size > 0:
+			cl = append(cl, "stale-content-length")
+		case st == "res-content-length" && !c.Built && c.Res.Framing == "cl" && c.Res.Encoding == "" && c.Res.Body.Size > 0 && c.Req.Method != "HEAD":
+			cl = append(cl, "stale-content-length")
+		case st == "req-host":
+			cl = append(cl, "stale-host")
+		case st == "req-transfer-encoding" && c.Req.Framing == "chunked", st == "res-transfer-encoding" && !c.Built && c.Res.Framing == "chunked":
+			cl = append(cl, "stale-transfer-encoding")
+		}
+	}
+	if c.Built {
+		cl = append(cl, "built-response")
+		if c.Req.Proto10 {
+			cl = append(cl, "built-response-http10")
+		}
+	}
 	if len(c.Hist) > 0 {
 		cl = append(cl, "option-history")
 		np, nb := 0, 0
@@ -702,12 +841,12 @@ var propEntry = &kit.Prop[Case]{
 	Gates: map[string]float64{
 		"nontrivial": 0.6, "chunked-request": 0.1, "chunked-urlencoded": 0.01, "compressed-response": 0.15, "compressed-chunked-response": 0.03,
 		"non-utf8": 0.2, "non-utf8-param": 0.03, "req-body-multipart": 0.05, "req-body-form": 0.05, "post-optin": 0.08, "body-optout": 0.08,
-		"query": 0.3, "request-cookies": 0.15, "response-cookies": 0.15, "redirect": 0.08, "through-export-handler": 0.3, "option-history": 0.3, "option-overridden": 0.12,
+		"query": 0.3, "request-cookies": 0.15, "response-cookies": 0.15, "redirect": 0.08, "through-export-handler": 0.3, "option-history": 0.3, "option-overridden": 0.12, "stale-content-length": 0.02, "stale-host": 0.08, "stale-transfer-encoding": 0.02, "built-response": 0.08, "built-response-http10": 0.004,
 	},
 }
 
 var propMatrix = &kit.Prop[Case]{
-	ID: "C16", Name: "matrix", Rule: "ALL combinations of request body {none, text, binary, urlencoded, urlencoded with a non-UTF-8 value, multipart, multipart with a binary file part} x request framing {Content-Length, chunked in one / many chunks} x response {200 identity, gzip, deflate, br, GZIP, gzip+chunked, 206 gzip, 302, 204, 304 with Content-Encoding} x request method {POST, HEAD} x options {all, none}, plus 10 option histories (opt-out then all, opt-in then opt-out, none then opt-in, ... for both families) x image/text response x separate/single SetOption call: " + rule,
+	ID: "C16", Name: "matrix", Rule: "ALL combinations of request body {none, text, binary, urlencoded, urlencoded with a non-UTF-8 value, multipart, multipart with a binary file part} x request framing {Content-Length, chunked in one / many chunks} x response {200 identity, gzip, deflate, br, GZIP, gzip+chunked, 206 gzip, 302, 204, 304 with Content-Encoding} x request method {POST, HEAD} x options {all, none}, plus 10 option histories (opt-out then all, opt-in then opt-out, none then opt-in, ... for both families) x image/text response x separate/single SetOption call, plus header-map literals disagreeing with the message fields (5 kinds x Content-Length/chunked exchange) and responses built with proxyutil.NewResponse (HTTP/1.0, 1.1 x 200/502/204 x POST/HEAD): " + rule,
 	Run: run, NonTrivial: nontrivial, Classes: classes,
 }
 
@@ -780,6 +919,36 @@ func matrix(yield func(Case) bool) {
 				c := Case{Req: jsn, Res: res, Hist: hist, OneCall: one}
 				c.Post, c.Body = effective(hist)
 				if !yield(c) {
+					return
+				}
+			}
+		}
+	}
+	// literals in the header map that disagree with the message fields, and
+	// responses built by the proxy for HTTP/1.0 and HTTP/1.1 requests
+	allOpt := msggen.HarOpt{Mode: "all"}
+	chReq, chRes := jsn, txt
+	chReq.Framing, chReq.Chunks = "chunked", []int{7}
+	chRes.Framing, chRes.Chunks = "chunked", []int{7}
+	for _, st := range staleKinds {
+		for _, x := range [][2]msggen.Spec{{jsn, txt}, {chReq, chRes}} {
+			if !yield(Case{Req: x[0], Res: x[1], Post: allOpt, Body: allOpt, Stale: []string{st}}) {
+				return
+			}
+		}
+	}
+	if !yield(Case{Req: jsn, Res: txt, Post: allOpt, Body: allOpt, Stale: staleKinds}) {
+		return
+	}
+	for _, p10 := range []bool{false, true} {
+		for _, status := range []int{200, 502, 204} {
+			for _, method := range []string{"POST", "HEAD"} {
+				rq, rs := jsn, txt
+				rq.Proto10, rq.Method, rs.Status = p10, method, status
+				if status == 204 {
+					rs.Framing, rs.Body, rs.ContentType = "none", msggen.Body{Kind: "none"}, ""
+				}
+				if !yield(Case{Req: rq, Res: rs, Post: allOpt, Body: allOpt, Built: true}) {
 					return
 				}
 			}
